@@ -715,3 +715,55 @@ Lemma witness_repaired :
   (exists k d, check_cmd_safe true (w_journal w_day (Some w_zero_accrual)) = CErr k d) /\
   (exists k d, balance_table_safe (w_cfg []) (w_journal 0 None) = CErr k d).
 Proof. repeat split; eexists; eexists; vm_compute; reflexivity. Qed.
+
+(* ---------------------------------------------------------------- an invalid directive anywhere fails every command *)
+
+Lemma cbind_ok_inv {A B} (x : cresult A) (f : A -> cresult B) b :
+  cbind x f = COk b -> exists a, x = COk a /\ f a = COk b.
+Proof. destruct x as [a|k d|m]; cbn [cbind]; intros H; try discriminate. exists a. auto. Qed.
+
+Lemma load_safe_not_ok ds d :
+  In d ds -> (forall o, parse_directive d <> MOk o) -> forall b, load_safe ds <> COk b.
+Proof.
+  intros Hin Hbad b H. unfold load_safe in H. rewrite parse_directives_safe_eq in H.
+  destruct (parse_directives ds) as [l|e|m] eqn:E; cbn [depanic of_mresult cbind] in H; try discriminate.
+  destruct (parse_directives_ok_all _ _ E d Hin) as (o & Ho). exact (Hbad o Ho).
+Qed.
+
+Theorem invalid_directive_fails_all fs root p items d :
+  reach fs root p -> lookup fs p = Some (FOk items) -> In (IDir d) items ->
+  (forall o, parse_directive d <> MOk o) ->
+  (forall l u, run_fs fs root (check_cmd_safe l) <> COk u) /\
+  (forall l s, run_fs fs root (print_cmd_safe l) <> COk s) /\
+  (forall cfg t, run_fs fs root (balance_table_safe cfg) <> COk t).
+Proof.
+  intros Hr Hlk Hin Hbad. unfold run_fs.
+  destruct (Loader.load (fuel_for fs) fs root) as [ds|e|] eqn:El.
+  2: { repeat split; intros; discriminate. }
+  2: { repeat split; intros; discriminate. }
+  pose proof (included_directive_loaded fs root p items d Hr Hlk Hin _ _ El) as Hd.
+  pose proof (load_safe_not_ok ds d Hd Hbad) as Hno.
+  repeat split.
+  - intros l u H. unfold check_cmd_safe in H. apply cbind_ok_inv in H. destruct H as (b & Hb & _). exact (Hno b Hb).
+  - intros l s H. unfold print_cmd_safe in H. apply cbind_ok_inv in H. destruct H as (b & Hb & _). exact (Hno b Hb).
+  - intros cfg t H. unfold balance_table_safe in H. apply cbind_ok_inv in H. destruct H as (rp & H & _).
+    unfold balance_report_safe in H. destruct (negb (mapping_flag_ok (bc_mapping cfg))); [discriminate|].
+    apply cbind_ok_inv in H. destruct H as (u & _ & H).
+    apply cbind_ok_inv in H. destruct H as (b & Hb & _). exact (Hno b Hb).
+Qed.
+
+(* the commands on a file tree never panic and never run out of fuel *)
+Theorem commands_fs_np cfg lenient fs root :
+  check_fs lenient fs root <> PredPANIC /\ print_fs lenient fs root <> PredPANIC /\ balance_fs cfg fs root <> PredPANIC.
+Proof.
+  assert (H : forall A (r : cresult A), cnp r -> predict r <> PredPANIC).
+  { intros A r Hr. destruct r as [a|k d|m]; cbn [predict]; try discriminate. exfalso. exact (Hr m eq_refl). }
+  unfold check_fs, print_fs, balance_fs. repeat split; apply H; apply run_fs_np; intros ds.
+  - apply check_cmd_safe_np.
+  - apply print_cmd_safe_np.
+  - apply balance_table_safe_np.
+Qed.
+
+(* a failing command has no output: the result type of the commands carries output only in COk *)
+Lemma error_no_output (r : cresult str) k d : r = CErr k d -> stdout_of r = [].
+Proof. intros ->. reflexivity. Qed.
